@@ -126,7 +126,9 @@ def run_case(case):
         reads[-1] = reads[-1] + valid_reads[0]
         valid_reads = valid_reads[1:]
     reads = reads + valid_reads
-    if case.get('empties') and case['receiver'] in ('framer', 'sync_serial'):
+    # through the serial handler an empty read (time-out) is only placed where valid frames arrive whole (the property's schedules:
+    # "valid frames, one per read and several per read"); what a handler does with a frame that is cut by a time-out is its policy
+    if case.get('empties') and (case['receiver'] == 'framer' or (case['receiver'] == 'sync_serial' and not (case.get('vcut') and framing in ('ascii', 'binary')))):
         for pos_ in sorted(case['empties'], reverse=True):
             reads.insert(pos_ % (len(reads) + 1), b'')
         labels.append('empty-reads')
